@@ -213,7 +213,7 @@ def build():
             one = "t_" + _ident(cid) + " = [" + ", ".join(str(k) for k in range(4200)) + "]"
         else:
             one = "int t_" + _ident(cid) + "[] = {" + ", ".join(str(k) for k in range(4200)) + "};"
-        C[cid] = {"lang": lang, "bytes": one.encode()}
+        C[cid] = {"lang": lang, "bytes": one.encode(), "slow": True}     # ~0.7 s per analysis
         # banner comments: long runs of comment-leader characters
         cid = f"{p}.banner"
         lead = "#" if lang == "py" else "/"
